@@ -826,10 +826,62 @@ class Report:
                     return 'via %s: %s' % (n.rsplit('::', 1)[-1], r)
             return None
         if o.kind == 'param':
+            if o.path:
+                # a field of a parameter object: hostile if some store to that field anywhere in the program stores a hostile value
+                r = self.field_hostile_why(body, o.param, o.path, depth + 1)
+                if r:
+                    return r
             return self.param_hostile_why(body, o.param, depth + 1)
         if o.kind == 'unknown':
             return 'unknown origin'
         return None
+
+    def field_hostile_why(self, body, param, path, depth):
+        if depth > 8:
+            return None
+        ty = re.sub(r'^&(mut )?', '', body.local_ty(param) or '')
+        owner = re.sub(r'<.*$', '', ty)
+        fld = path[0]
+        key = (owner, fld)
+        memo = self.__dict__.setdefault('_fh', {})
+        if key in memo:
+            return memo[key]
+        memo[key] = None            # in progress / default
+        res = None
+        for k, b in self.P.bodies.items():
+            if res:
+                break
+            for bi in range(b.n):
+                bl = b.blocks[bi]
+                if bl['cleanup']:
+                    continue
+                for stt in bl['stmts']:
+                    if stt['s'] != 'assign' or not stt['place']['p']:
+                        continue
+                    last = stt['place']['p'][-1]
+                    if last.get('k') == 'field' and last.get('name') == fld and (last.get('owner') or '').split('<')[0] == owner:
+                        rv = stt['rv']
+                        ops = [rv['op']] if rv['rv'] == 'use' else list(rv.get('ops', [])) if rv['rv'] == 'agg' else []
+                        for op in ops:
+                            if isinstance(op, dict):
+                                r = self.op_hostile_why(b, op, depth + 1)
+                                if r:
+                                    res = 'field %s.%s stored in %s: %s' % (owner.rsplit('::', 1)[-1], fld, k.rsplit('::', 1)[-1], r)
+                                    break
+                t = bl['term']
+                if not res and t['t'] == 'call' and t['dest']['p']:
+                    last = t['dest']['p'][-1]
+                    if last.get('k') == 'field' and last.get('name') == fld and (last.get('owner') or '').split('<')[0] == owner:
+                        c = b.call_at(bi)
+                        ck = c.callee if c.callee in self.P.bodies else b.crate + '::' + c.callee
+                        if HOSTILE_SRC.search(c.callee):
+                            res = 'field %s.%s stored from %s' % (owner.rsplit('::', 1)[-1], fld, c.callee.rsplit('::', 1)[-1])
+                        elif ck in self.P.bodies:
+                            r = self.op_hostile_why(self.P.bodies[ck], {'k': 'copy', 'place': {'l': 0, 'p': []}}, depth + 1)
+                            if r:
+                                res = 'field %s.%s stored from %s: %s' % (owner.rsplit('::', 1)[-1], fld, c.callee.rsplit('::', 1)[-1], r)
+        memo[key] = res
+        return res
 
     def _old_op_hostile(self, body, op, depth):
         if depth > 4:
